@@ -174,6 +174,8 @@ pub struct MatrixCase {
     /// expected output in the modes that succeed
     pub output: String,
     pub row: String,
+    #[serde(default)]
+    pub companions: Vec<(String, String)>,
 }
 
 pub struct Matrix;
@@ -190,6 +192,7 @@ pub fn matrix() -> Vec<MatrixCase> {
             fails,
             output: output.to_string(),
             row: row.to_string(),
+            companions: vec![],
         })
     };
     const PRINT: [bool; 4] = [true, true, false, false];
@@ -243,6 +246,56 @@ pub fn matrix() -> Vec<MatrixCase> {
         add("set_and_test", format!("{{% set c = {u} %}}[{{{{ c is defined }}}}]"), NEVER, "[False]");
         add("with_and_test", format!("{{% with c = {u} %}}[{{{{ c is undefined }}}}]{{% endwith %}}"), NEVER, "[True]");
     }
+    // the same sites where the output is thrown away or produced by another template: after
+    // `extends` at the top level of a child, at the top level of an imported module, in an
+    // included template, in an inherited block (a missing variable is undefined everywhere)
+    let base = ("base.txt".to_string(), "<{% block b %}base{% endblock %}>".to_string());
+    let mut add_multi = |row: &str, src: &str, companions: Vec<(String, String)>, fails: [bool; 4], output: &str| {
+        out.push(MatrixCase { source: src.to_string(), fails, output: output.to_string(), row: row.to_string(), companions })
+    };
+    add_multi("print_after_extends", "{% extends 'base.txt' %}[{{ u }}]{% block b %}B{% endblock %}", vec![base.clone()], PRINT, "<B>");
+    add_multi("concat_after_extends", "{% extends 'base.txt' %}[{{ 'a' ~ u }}]", vec![base.clone()], PRINT, "<base>");
+    add_multi("iterate_after_extends", "{% extends 'base.txt' %}{% for q in u %}x{% endfor %}", vec![base.clone()], PRINT, "<base>");
+    add_multi("truth_after_extends", "{% extends 'base.txt' %}{% if u %}t{% endif %}", vec![base.clone()], TRUTH, "<base>");
+    add_multi("access_after_extends", "{% extends 'base.txt' %}{% set z = u.a %}", vec![base.clone()], ACCESS, "<base>");
+    add_multi("print_in_overriding_block", "{% extends 'base.txt' %}{% block b %}[{{ u }}]{% endblock %}", vec![base.clone()], PRINT, "<[]>");
+    add_multi("print_in_parent_block", "{% extends 'pb.txt' %}", vec![("pb.txt".to_string(), "<{% block b %}[{{ u }}]{% endblock %}>".to_string())], PRINT, "<[]>");
+    let module = ("mod.txt".to_string(), "[{{ u }}]{% macro mm() %}M{% endmacro %}".to_string());
+    add_multi("print_in_from_imported_module", "{% from 'mod.txt' import mm %}{{ mm() }}", vec![module.clone()], PRINT, "M");
+    add_multi("print_in_imported_module", "{% import 'mod.txt' as md %}{{ md.mm() }}", vec![module.clone()], PRINT, "M");
+    add_multi(
+        "iterate_in_from_imported_module",
+        "{% from 'modl.txt' import mm %}{{ mm() }}",
+        vec![("modl.txt".to_string(), "{% for q in u %}x{% endfor %}{% macro mm() %}M{% endmacro %}".to_string())],
+        PRINT,
+        "M",
+    );
+    add_multi(
+        "truth_in_imported_module",
+        "{% import 'modt.txt' as md %}{{ md.mm() }}",
+        vec![("modt.txt".to_string(), "{% if u %}t{% endif %}{% macro mm() %}M{% endmacro %}".to_string())],
+        TRUTH,
+        "M",
+    );
+    add_multi("print_in_included", "<{% include 'inc.txt' %}>", vec![("inc.txt".to_string(), "[{{ u }}]".to_string())], PRINT, "<[]>");
+    add_multi(
+        "print_in_include_after_extends",
+        "{% extends 'base.txt' %}{% include 'inc.txt' %}",
+        vec![base.clone(), ("inc.txt".to_string(), "[{{ u }}]".to_string())],
+        PRINT,
+        "<base>",
+    );
+    add_multi(
+        "print_in_captured_include_after_extends",
+        "{% extends 'base.txt' %}{% set c %}{% include 'inc.txt' %}{% endset %}{% block b %}{{ c }}{% endblock %}",
+        vec![base.clone(), ("inc.txt".to_string(), "[{{ u }}]".to_string())],
+        PRINT,
+        "<[]>",
+    );
+    add_multi("print_in_call_block", "{% macro w() %}({{ caller() }}){% endmacro %}{% call w() %}[{{ u }}]{% endcall %}", vec![], PRINT, "([])");
+    add_multi("print_in_macro_default", "{% macro p(v=u) %}[{{ v }}]{% endmacro %}{{ p() }}", vec![], PRINT, "[]");
+    add_multi("print_in_set_filter", "{% set c | upper %}[{{ u }}]{% endset %}{{ c }}", vec![], PRINT, "[]");
+    add_multi("print_in_autoescape", "{% autoescape true %}[{{ u }}]{% endautoescape %}", vec![], PRINT, "[]");
     out
 }
 
@@ -265,7 +318,7 @@ impl Part for Matrix {
             let mc = ModeCase {
                 main_name: "m.txt".into(),
                 source: c.source.clone(),
-                companions: vec![],
+                companions: c.companions.clone(),
                 missing: vec!["u".into()],
             };
             let (out, _) = render_mode(&mc, *mode);
@@ -289,7 +342,7 @@ impl Part for Matrix {
 crate::declare_parts!(Monotone, Matrix);
 
 pub fn run(ctx: &mut Ctx) {
-    ctx.rule = "monotonicity: free-mode programs (every construct, every built-in filter/test/function in every argument position, companions for include/import/extends) over the standard context with a random subset of its keys removed, rendered under Strict, SemiStrict, Lenient and Chainable; for every stricter/weaker pair success of the stricter implies success of the weaker with byte-identical output. matrix: 36 site rows x 4 kinds of undefined operand (missing variable, missing attribute, index beyond a list, missing key) x 4 modes, enumerated completely against the documented fail/yield table. Non-trivial: the recording context saw a lookup miss and (two modes differ in outcome or all four succeed). Distinct by case.".into();
+    ctx.rule = "monotonicity: free-mode programs (every construct, every built-in filter/test/function in every argument position, companions for include/import/extends) over the standard context with a random subset of its keys removed, rendered under Strict, SemiStrict, Lenient and Chainable; for every stricter/weaker pair success of the stricter implies success of the weaker with byte-identical output. matrix: 40 site rows x 4 kinds of undefined operand (missing variable, missing attribute, index beyond a list, missing key) x 4 modes, plus 18 multi-template rows (the same sites after `extends` where output is discarded, at the top level of imported modules, in included templates, inherited and overriding blocks, call blocks, macro defaults), enumerated completely against the documented fail/yield table. Non-trivial: the recording context saw a lookup miss and (two modes differ in outcome or all four succeed). Distinct by case.".into();
     ctx.assumptions = vec![
         "debug() is excluded (it prints the engine state, which names the undefined behaviour)".into(),
         "cases that hit the fuel limit or fail to load are skipped (counted under the label skipped_load_error_or_fuel)".into(),
